@@ -132,9 +132,17 @@ class StmtMixin:
         """intermediate assertions of the sidecar: ensures_local keys 'name@after:<target> = <callee>' are proof
         obligations in the state right after that assignment (target text and called name taken from the source)"""
         locs = [k for k in self.contract.ensures_local if "@after:" in k]
-        if not locs or not isinstance(s.value, ast.Call):
+        snaps = getattr(self.contract, "snapshots", {})
+        if not (locs or snaps) or not isinstance(s.value, ast.Call):
             return
         here = "%s = %s" % (ast.unparse(s.targets[0]), ast.unparse(s.value.func))
+        for label, where in snaps.items():
+            if where.strip() == here:
+                rec = st.copy()
+                rec.snaps = {}
+                st.snaps = dict(st.snaps)
+                st.snaps[label] = rec
+                self.after_sites_seen.add("snapshot:" + label)
         for key in locs:
             name, where = key.split("@after:")
             if where.strip() != here:
